@@ -1292,7 +1292,7 @@ CMR_ERROR CMRtwosumDecomposeFirst(CMR* cmr, CMR_CHRMAT* matrix, CMR_SEPA* sepa, 
     CMR_CALL( CMRallocStackArray(cmr, &columnsToFirst, matrix->numColumns) );
 
   char* denseColumn = NULL;
-  CMR_CALL( CMRallocStackArray(cmr, &denseColumn, matrix->numColumns) );
+  CMR_CALL( CMRallocStackArray(cmr, &denseColumn, matrix->numRows) );
 
   /* Number of rows of A. */
   size_t numRows = 0;
@@ -1442,7 +1442,7 @@ CMR_ERROR CMRtwosumDecomposeSecond(CMR* cmr, CMR_CHRMAT* matrix, CMR_SEPA* sepa,
     CMR_CALL( CMRallocStackArray(cmr, &columnsToSecond, matrix->numColumns) );
 
   char* denseColumn = NULL;
-  CMR_CALL( CMRallocStackArray(cmr, &denseColumn, matrix->numColumns) );
+  CMR_CALL( CMRallocStackArray(cmr, &denseColumn, matrix->numRows) );
 
   /* Find extra row. */
   size_t extraRow = SIZE_MAX;
